@@ -612,7 +612,7 @@ func takeSnapshot(st storeAPI, g *Graph, withTags bool, withDigest bool) *Snapsh
 			if err != nil {
 				s.ByDgst[n.ID] = "!" + errClass(err)
 			} else {
-				s.ByDgst[n.ID] = fmt.Sprintf("%s|%d", d.Digest, d.Size)
+				s.ByDgst[n.ID] = fmt.Sprintf("%s|%s|%d", d.MediaType, d.Digest, d.Size)
 			}
 		}
 	}
